@@ -859,7 +859,9 @@ def ite(c, a, b, guard_a=None, guard_b=None):
             raise HarnessError("merge of a finite and a non-finite value (%r, %r) outside a context" % (a, b))
         if nf_a and nf_b:
             return a if (a == b or (a != a and b != b)) else NONFINITE(ctx, c, a, b)
-        fresh = SR(ctx.fresh_real("nonfinite"))
+        # one shared symbol per non-finite constant: two runs that reach the same non-finite value build identical terms
+        nfv = float(a if nf_a else b)
+        fresh = SR(z3.Real("nonfinite!%s" % ("nan" if nfv != nfv else ("+inf" if nfv > 0 else "-inf"))))
         guard = (guard_a if guard_a is not None else c) if nf_a else (guard_b if guard_b is not None else z3.Not(c))
         pc = list(ctx.local_pc) if (ctx.in_merge and ctx.local_pc is not None) else []
         ctx.nonfinite.append((z3.And(*(pc + [guard])) if pc else guard, float(a if nf_a else b)))
